@@ -141,3 +141,50 @@ func VH_C13_WriteInPlaceFaults() {
 	vhAssert(vhFSCountPrefix(dest+".tmp") == 0, "no-temp-left-after-error")
 	_ = err
 }
+
+// H13.e: the output path is a symbolic link to the existing regular file (a
+// "current" link into a versioned store). WriteAny-based output - killed at
+// any file-system step, or hit by any handled OS failure - still leaves the
+// path holding exactly OLD or exactly NEW: the link is not written through.
+func VH_C13_WriteAnyThroughSymlink() {
+	target := vhFSPath("store-out-v1.bin")
+	dest := vhFSPath("out.bin")
+	old := vhBytes("old", vhInt("oldlen", 1, 2))
+	vhFSPut(target, old)
+	vhFSSymlink(target, dest)
+	data := vhBytes("new", vhInt("newlen", 0, 3))
+	var err error
+	write := func() {
+		var f AtomicFile
+		f, err = WriteAny(dest)
+		if err != nil {
+			return
+		}
+		if _, err = f.Write(data); err != nil {
+			f.Close()
+			return
+		}
+		err = f.Commit()
+		f.Close()
+	}
+	crashed := false
+	if vhBool("killed") {
+		crashed = vhCrashRun(vhInt("crash-step", 0, 8), write)
+	} else {
+		vhFSFaults(true)
+		write()
+		vhFSFaults(false)
+	}
+	got, ok := vhFSGet(dest)
+	vhReach("returned") // vh:require returned
+	vhAssert(ok, "destination-never-missing")
+	if ok {
+		vhAssert(bytes.Equal(got, data) || bytes.Equal(got, old), "destination-old-or-new")
+	}
+	if !crashed {
+		vhAssert(vhFSCountPrefix(dest+".tmp") == 0, "no-temp-left")
+		if err == nil {
+			vhAssert(ok && bytes.Equal(got, data), "success-means-new-content")
+		}
+	}
+}
